@@ -171,6 +171,14 @@ func (ss *SpecSet) parseSpec(text, path, pkgPath string) error {
 		}
 		kw, rest := splitKw(s)
 		fail := func(e error) error { return fmt.Errorf("%s:%d: %v", path, ln+1, e) }
+		if cur != nil && !cur.Trusted && !cur.IsIface {
+			switch kw {
+			case "requires", "ensures", "modifies", "loop", "at-return", "at-call", "allocbound":
+				// locals renamed since the committed version (and nothing else changed in shape): read the clause
+				// with the new names (rebind.go)
+				rest = renameIdents(rest, theRebinder.renaming(path, cur.Key))
+			}
+		}
 		switch kw {
 		case "props":
 			defaultProps = strings.Fields(rest)
